@@ -2,6 +2,7 @@
 on three crate-private pure functions (replace_arg_placeholders, decode_tags, extend_query) through the cfg-guarded hook."""
 
 CFG = {
+    "extra_props": ["C04SPg"],
     "gens": ["C04S"],
     "feature": "c04s",
     "model_exe": "askar_model_c04s",
@@ -18,9 +19,19 @@ CFG = {
         "tags), random bytes over the format's alphabet and arbitrary bytes; c04s:decode_tags_mut — EVERY single-byte substitution, proper "
         "prefix and single-byte deletion of small valid texts (counts + FNV digest of all outcomes); (4) c04s:extend — the final text of "
         "COUNT / SCAN / DELETE_ALL (the real constants, whitespace-collapsed, against Generated/Consts.lean) and of synthetic bases after "
-        "extend_query with filter, ORDER BY, OFFSET/LIMIT: exact suffix and parameter count.  Non-trivial = an encode case with a clause "
-        "containing a negation and >= 2 placeholders; a replace case that replaced >= 1 placeholder or panicked; a decode case that decoded "
-        ">= 1 tag or whose mutation sweep had both outcomes; an extend case that appended something; distinct = hash of the case"
+        "extend_query with filter, ORDER BY, OFFSET/LIMIT: exact suffix and parameter count; (5) the POSTGRES dialect of the same pure code "
+        "(no server involved): c04s:encode_pg — the filter trees, start indices and encryptors of (1) through "
+        "replace_arg_placeholders::<PostgresBackend> ($n), raw text / final text / arguments compared exactly with replaceArgsD .postgres "
+        "(Model/WqlTextPg.lean); the executor also runs the SQLite hook on the same filter and the oracle re-spells ?n -> $n: placeholders "
+        "$start.. consecutive in textual order, one per argument, no ? / $$ / lone $ left, same raw text and arguments; c04s:extend_pg — "
+        "extend_query::<PostgresBackend> on the real Postgres COUNT / SCAN / DELETE_ALL constants (by name through statement_pg; the text "
+        "travels with the case and is re-checked against statement_pg at execution) and on synthetic bases (already numbered $1.., lower case, "
+        "non-SELECT, near misses), filter x ORDER BY x offset {none, 0, -2..69} x limit {none, -1, -2..69, 0, 1, i64::MAX, i64::MIN}: exact "
+        "suffix (' LIMIT $k OFFSET $k+1') and parameter count; oracle: parameter-count arithmetic, the LIMIT/OFFSET pair numbered right "
+        "after the filter's arguments and present iff SELECT and a window is given, same text as SQLite up to the window clause.  "
+        "Non-trivial = an encode / encode_pg case with a clause containing a negation and >= 2 placeholders; a replace case that replaced "
+        ">= 1 placeholder or panicked; a decode case that decoded >= 1 tag or whose mutation sweep had both outcomes; an extend / extend_pg "
+        "case that appended something; distinct = hash of the case"
     ),
     "assumptions": [
         "the injected encryptors are re-implemented on both sides (Rust closures in harness/src/c04s.rs, TagCrypto.toy / rawCrypto in Lean); "
@@ -29,6 +40,11 @@ CFG = {
         "profile independent.  Both lie outside every text the encoder can produce (Props/C04S.lean: encode_text_exact) and are recorded as "
         "diagnostics, not as oracle failures",
         "extend_query's `trim_start().to_uppercase().starts_with(\"SELECT\")` is modelled for ASCII statement text (the eleven constants are ASCII)",
+        "Postgres dialect: only the TEXT and the parameter COUNT are compared with the real code (no Postgres server in the sandbox, and the "
+        "hooks return params.len(), not the values).  What limit_query binds (SQLite: offset-or-0 then limit-or-(-1); Postgres: limit-or-NULL "
+        "then offset-or-0; a negative limit bound as it is) is transcribed from the source into Dialect.limitBinds and the theorems about it "
+        "(window_binding_order, absent_limit_binding_differs, given_limit_bound_as_is) are statements about that transcription; what the "
+        "server does with NULL / a negative LIMIT is not modelled",
     ],
     "trusted_base": [
         "the hook module askar-storage/src/verif_hooks.rs (thin wrappers, no logic of their own: closures wrapped in Ok, "
@@ -44,7 +60,7 @@ def nontrivial(rec):
     if not isinstance(out, dict):
         return False
     kind = case.get("kind")
-    if kind == "c04s:encode":
+    if kind in ("c04s:encode", "c04s:encode_pg"):
         return "sql" in out and " NOT IN " in out["sql"] and len(out.get("args", [])) >= 2
     if kind == "c04s:replace":
         return out.get("panic") is True or ("out" in out and "?" in out["out"] and out["out"] != case.get("text"))
@@ -52,6 +68,6 @@ def nontrivial(rec):
         return isinstance(out.get("ok"), list) and len(out["ok"]) >= 1
     if kind == "c04s:decode_tags_mut":
         return out.get("ok", 0) > 0 and out.get("err", 0) > 0
-    if kind == "c04s:extend":
+    if kind in ("c04s:extend", "c04s:extend_pg"):
         return bool(out.get("suffix"))
     return False
